@@ -27,6 +27,10 @@ checks = {
    'Cooperative-scheduler monitor: the real core/stat/base code is compiled with every sync/atomic access turned into a yield point (build-time import swap, no source change) and 2-3 real goroutines performing 1-2 add / read / values / concurrency ops each, plus a clock-tick worker constrained so that no recorder is stalled longer than one bucket, are interleaved at atomic-access granularity around a bucket rollover (families warm / cold / boundary; 1, 2, 3, 20 buckets) under random-walk, PCT (d<=3) and bounded-DFS (<=2 pre-emptions) schedules. Amounts are distinct powers of 16, so every read and every final bucket decodes into exactly which adds it contains: nothing counted twice or invented, nothing credited to another bucket (arrays with >1 bucket), the expired cycle\'s marker never visible, exact totals when no recorder overlapped a rollover, every worker terminates within 10^4 fair steps. Second engine: 32 goroutines under the race detector (checkptr on the unsafe indexing) in frozen-clock phases.',
    'Interleavings are complete at atomic-access granularity only for the sampled / bounded schedule classes (<=3 workers x 2 ops); Go atomics assumed sequentially consistent; min-rt and max-concurrency (documented inaccurate) are exercised but not compared.',
    'cooperative-scheduler interleaving monitor over build-time-shimmed atomics (random/PCT/bounded DFS) + race-detector stress', 'DESIGN.md §3 C09'),
+ 'C10': ('exploration',
+   'Two runtime monitors through api.Entry on a minimal chain. (1) Exact sequential pacing model on generated nanosecond arrival histories (pass = max(now, last+ceil(batch/threshold*interval)); reject iff that exceeds the queueing limit or batch > threshold), comparing every decision and requested sleep. (2) Cooperative scheduler with core/flow/tc_throttling.go compiled against the shimmed atomics: 2-3 callers x 1-2 calls and a clock-tick worker interleaved at every atomic access of DoCheck (random walk, PCT d<=3, bounded DFS); on the set of admitted (arrival, requested sleep) pairs the sorted pass times must be spaced by the later request\'s cost, every sleep within the limit, and each rejection justified by a value the shared timestamp took during that call (recorded by the shim).',
+   'Sleeps are recorded through the virtual clock, not slept; interleavings sampled / bounded (<=3 callers x 2 calls); Go atomics assumed sequentially consistent.',
+   'runtime reference-model monitor + cooperative-scheduler interleaving monitor over build-time-shimmed atomics', 'DESIGN.md §3 C10'),
  'C13': ('exploration',
    'Model-based monitor over all six rule modules: generated sequences of LoadRules / LoadRulesOfResource (LoadRuleOfResource for outlier) / ClearRules / ClearRulesOfResource / identical reload with freshly allocated equal objects, lists mixing binding valid rules (unique id + probe signature), inert valid rules, every field-wise invalidity class of the module and nil elements. After every step the getters (ids, order within a resource) and probe traffic (admissions until the first block and the triggered rule: frozen-window requests for flow, nested entries for isolation / hotspot / system, error completions for breakers, failing callee completions until FilterNodes reports the node for outlier) on the touched and on another resource are compared with the model = valid rules of the latest load per resource.',
    'Validity is the monitor\'s own transcription of each module\'s documented check; probes observe the binding (minimum-K) rule and the getters the whole list; generated rules are semantically unique (the managers re-use the controller and the old rule object of a rule equal in every field but ID, which is not treated as a violation); unsupported-enum rules accepted by the module\'s own check are not generated.',
